@@ -28,7 +28,7 @@ pub enum GF {
 pub const BIN_NAMES: [&str; 8] = ["and", "or", "xor", "nor", "nand", "imp", "impinv", "iff"];
 pub const CNT_NAMES: [&str; 5] = ["le", "lt", "ge", "gt", "eq"];
 
-pub const NAME_POOL: [&str; 12] = ["a", "b", "c", "d", "e", "x1", "y'", "_z", "q_0", "V", "nott", "a1"];
+pub const NAME_POOL: [&str; 14] = ["a", "b", "c", "d", "e", "x1", "y'", "_z", "q_0", "V", "nott", "a1", "'q", "v"];
 
 pub struct Gen<'a> {
     pub rng: &'a mut Rng,
@@ -157,6 +157,9 @@ impl<'a> Printer<'a> {
             3 => " \"a comment & [ ) lfp\" ".to_string(),
             4 => " $ ".to_string(),   // a character outside the alphabet acts as a separator
             5 => " \"\" ".to_string(),
+            // line endings as the only separator between two tokens: CR LF, a lone CR
+            6 => "\r\n".to_string(),
+            7 => "\r".to_string(),
             _ => " ".to_string(),
         }
     }
@@ -709,6 +712,23 @@ pub fn c04_lang(out: &mut dyn Write, tier: &str, rng: &mut Rng, st: &mut Stats) 
 /// C02 for diagrams over named variables (what the parser and the binary produce): the variable order is the
 /// order of the ids, whatever the names look like — names whose alphabetical order disagrees with it (b before a,
 /// x10 after x9) included; the diagram returned must be ordered by id and reduced
+/// the same tree with one name replaced everywhere (binders included)
+pub fn rename_gf(g: &GF, from: &str, to: &str) -> GF {
+    let rn = |s: &String| if s == from { to.to_string() } else { s.clone() };
+    match g {
+        GF::False => GF::False,
+        GF::True => GF::True,
+        GF::Var(v) => GF::Var(rn(v)),
+        GF::Not(a) => GF::Not(Box::new(rename_gf(a, from, to))),
+        GF::Quant(q, vs, a) => GF::Quant(*q, vs.iter().map(rn).collect(), Box::new(rename_gf(a, from, to))),
+        GF::CntC(op, fs, k) => GF::CntC(*op, fs.iter().map(|f| rename_gf(f, from, to)).collect(), *k),
+        GF::CntV(op, a, b) => GF::CntV(*op, a.iter().map(|f| rename_gf(f, from, to)).collect(), b.iter().map(|f| rename_gf(f, from, to)).collect()),
+        GF::Fix(x, i, a) => GF::Fix(rn(x), *i, Box::new(rename_gf(a, from, to))),
+        GF::Ite(a, b, c) => GF::Ite(Box::new(rename_gf(a, from, to)), Box::new(rename_gf(b, from, to)), Box::new(rename_gf(c, from, to))),
+        GF::Bin(op, a, b) => GF::Bin(*op, Box::new(rename_gf(a, from, to)), Box::new(rename_gf(b, from, to))),
+    }
+}
+
 pub fn c02_lang(out: &mut dyn Write, tier: &str, rng: &mut Rng, st: &mut Stats) {
     let n = if tier == "thorough" { 60000 } else { 1500 };
     let pool = ["z", "y", "b", "a", "x9", "x10", "B", "_a", "a'"];
@@ -724,6 +744,29 @@ pub fn c02_lang(out: &mut dyn Write, tier: &str, rng: &mut Rng, st: &mut Stats) 
         let line = eval_line_ord("C02", &gf, &text, ord, st);
         writeln!(out, "{}", line).unwrap();
         st.hit("lang.named");
+        // every fifth formula: the same formula with one name replaced by a name that occurs nowhere else, parsed on its
+        // own — same ids, another name: the two answers must compare equal AND hash equal
+        if i % 5 == 2 && !has_fix(&gf) {
+            let ns = names_of(&gf);
+            if let Some(from) = ns.first() {
+                let gf2 = rename_gf(&gf, from, "renamed_q'");
+                let t1 = Printer { rng, noise: false }.print(&gf);
+                let t2 = Printer { rng, noise: false }.print(&gf2);
+                if let (Parsed::Ok(p1), Parsed::Ok(p2)) = (parse_text(t1.as_bytes(), None), parse_text(t2.as_bytes(), None)) {
+                    if let (Ok(r1), Ok(r2)) = (eval_guarded(&p1), eval_guarded(&p2)) {
+                        // only when the two parses number their names alike (the printer may order list entries differently)
+                        let ids1: Vec<usize> = p1.vars.iter().map(|v| v.id).collect();
+                        let ids2: Vec<usize> = p2.vars.iter().map(|v| v.id).collect();
+                        let names_match = p1.vars.iter().zip(p2.vars.iter()).all(|(a, b)| a.id == b.id && (a.name == b.name || (a.name.as_str() == from.as_str() && b.name.as_str() == "renamed_q'")));
+                        if ids1 == ids2 && names_match {
+                            writeln!(out, "C02|canon|renamed|{}|{}|{}|{}|{}|{}", show_ns(&r1), show_ns(&r2), (r1 == r2) as u8,
+                                (r1.get_hash() == r2.get_hash()) as u8, r2.is_true() as u8, r2.is_false() as u8).unwrap();
+                            st.hit("lang.renamed-pair");
+                        }
+                    }
+                }
+            }
+        }
     }
 }
 
@@ -819,7 +862,9 @@ pub fn c06(out: &mut dyn Write, tier: &str, rng: &mut Rng, st: &mut Stats) {
         } else { gf };
         count_kinds(&gf, st);
         let text = Printer { rng, noise: false }.print(&gf);
-        let line = eval_line("C06", &gf, &text, st);
+        // every fourth formula under an ordering handed over through the API (sparse ids; the bound name is often not listed)
+        let ord = if i % 4 == 1 { st.hit("ordering.api"); Some(api_ordering(rng, &names_of(&gf))) } else { None };
+        let line = eval_line_ord("C06", &gf, &text, ord, st);
         writeln!(out, "{}", line).unwrap();
     }
     // the library iterator with monotone closures
@@ -898,7 +943,9 @@ pub fn c09(out: &mut dyn Write, tier: &str, rng: &mut Rng, st: &mut Stats) {
         // small name pools so that names are reused as bound and free
         let k = 1 + rng.below(4) as usize;
         let mut names: Vec<String> = Vec::new();
-        while names.len() < k { let n = rng.pick(&NAME_POOL[..7]).to_string(); if !names.contains(&n) { names.push(n); } }
+        // (the small pool, and a name that begins with an apostrophe next to the name it would become without it)
+        let pool9: [&str; 9] = ["a", "b", "c", "d", "e", "x1", "y'", "'a", "'y'"];
+        while names.len() < k { let n = rng.pick(&pool9).to_string(); if !names.contains(&n) { names.push(n); } }
         let depth = 1 + rng.below(5) as u32;
         let gf = {
             let mut g = Gen { rng, names: names.clone(), allow_fix: i % 2 == 0, big_consts: false, max_list: 3 };
